@@ -456,7 +456,9 @@ func (e *Enc) evalField(s *Spec, env *SpecEnv) SV {
 				return intSV("0")
 			}
 			key := e.fieldKey(t, st, i)
-			return SV{T: fmt.Sprintf("(select %s %s)", e.hget(env.heap, key), base.T), S: e.d.sortOf(f.Type()), GoT: f.Type()}
+			term := fmt.Sprintf("(select %s %s)", e.hget(env.heap, key), base.T)
+			e.typingFact(f.Type(), term)
+			return SV{T: term, S: e.d.sortOf(f.Type()), GoT: f.Type()}
 		}
 		si := e.d.structInfoOf(t)
 		return SV{T: fmt.Sprintf("(%s %s)", si.fields[i], base.T), S: e.d.sortOf(f.Type()), GoT: f.Type()}
